@@ -41,6 +41,11 @@ pub fn tapes(seed: u64, tweak: u32) -> (Vec<u8>, Vec<u8>) {
         1 => { for b in r[128..160].iter_mut() { *b = 0xff; } for b in t[..32].iter_mut() { *b = 0xff; } }
         2 => { for b in r[128..160].iter_mut() { *b = 0; } for b in r[128 + 256 * 32..128 + 257 * 32].iter_mut() { *b = 0; } }
         3 => { for b in t[..64].iter_mut() { *b = 0; } }
+        // 4: the receiver's "other" point is the identity (scalar draw 0) in instances 0, 7, 200, 255; 5: in every instance;
+        // 6: t_a = 0 in instances 0 and 255.  The conclusion still holds for these tapes (only a zero SENDER scalar is degenerate).
+        4 => { for k in [0usize, 7, 200, 255] { for b in r[128 + (256 + k) * 32..128 + (257 + k) * 32].iter_mut() { *b = 0; } } }
+        5 => { for b in r[128 + 256 * 32..128 + 512 * 32].iter_mut() { *b = 0; } }
+        6 => { for k in [0usize, 255] { for b in r[128 + k * 32..128 + (k + 1) * 32].iter_mut() { *b = 0; } } }
         _ => {}
     }
     (r, t)
@@ -213,7 +218,7 @@ fn scenario(cx: &mut Ctx, s: &Scen) {
             let rel = relation(&a.bits, &a.skeys, &a.rkeys);
             let ones = (0..N).filter(|i| bit(&a.bits, *i) == 1).count();
             cx.rep.hist(if ones == 0 || ones == N { "choice:constant" } else { "choice:mixed" });
-            if s.tweak >= 2 {
+            if s.tweak == 2 || s.tweak == 3 {
                 // degenerate scalars (probability 2^-256 per draw): the conclusion is NOT claimed; correspondence only
                 let n_bad = rel.iter().filter(|r| **r != 1).count();
                 cx.rep.hist(&format!("degenerate-tape:instances-off={n_bad}"));
@@ -350,7 +355,7 @@ pub fn run(o: &Opts, drv: &mut Driver, rep: &mut Report) {
             scenario(&mut cx, &sc("honest", a, &[], 0, 0, 0, 0, "-"));
             if thorough || a == 2 || round > 0 { let mut s = sc("honest", a, &[], 0, 1, 0, 0, "-"); s.seed_a ^= 0x5555; scenario(&mut cx, &s); }
         }
-        if round == 0 { for tw in (if thorough { vec![2u32, 3] } else { vec![3u32] }) { let mut s = sc("honest", 2, &[], 0, tw, 0, 0, "-"); s.seed_a ^= 0x7777; scenario(&mut cx, &s); } }
+        if round == 0 { for tw in (if thorough { vec![2u32, 3, 4, 5, 6] } else { vec![3u32, 4, 6] }) { let mut s = sc("honest", 2, &[], 0, tw, 0, 0, "-"); s.seed_a ^= 0x7777; scenario(&mut cx, &s); } }
         // ---- different session ids on the two sides
         for a in 0..4 {
             if !thorough && (a + round as usize) % 2 == 1 { continue; }
